@@ -130,7 +130,18 @@ namespace verif
     if (op == "ite") return (eval(v["c"]) != 0.) ? A() : B();
     if (op == "lt") return A() < B() ? 1. : 0.;
     if (op == "le") return A() <= B() ? 1. : 0.;
-    // sum_{n=lo}^{hi} f(n): {"op":"series","var":"n","lo":1,"hi":100,"f":term using {"op":"var","name":"n"}}
+    if (op == "series")      // sum_{n=lo}^{hi} f(n): {"op":"series","var":"n","lo":1,"hi":100,"f":term using {"op":"var","name":"n"}}
+      {
+        const std::string var = v["var"].GetString();
+        const long lo = static_cast<long>(eval(v["lo"])), hi = static_cast<long>(eval(v["hi"]));
+        double acc = 0;
+        for (long n = lo; n <= hi; ++n)
+          {
+            env()[var] = static_cast<double>(n);
+            acc += eval(v["f"]);
+          }
+        return acc;
+      }
     throw HarnessError("term: unknown op " + op);
   }
 
